@@ -646,13 +646,13 @@ type bsConfig struct {
 // laws (quote prefix = C08, concatenation = C09) are evaluated by TLC where laws is set.
 func bsConfigs(c *Ctx) []bsConfig {
 	if c.Thorough() {
-		return []bsConfig{{"tiny", 6, true, 0}, {"small", 4, false, 0}, {"small", 3, true, 0}, {"lists", 4, false, 0}, {"lists", 3, true, 0}, {"quotes", 3, true, 0}, {"leaves", 3, false, 0}, {"leaves", 2, true, 0}, {"wide", 2, true, 0}, {"html", 3, true, 0}, {"tabs", 2, false, 0}, {"tabs2", 3, false, 0}}
+		return []bsConfig{{"tiny", 6, true, 0}, {"small", 4, false, 0}, {"small", 3, true, 0}, {"lists", 4, false, 0}, {"lists", 3, true, 0}, {"quotes", 3, true, 0}, {"leaves", 3, false, 0}, {"leaves", 2, true, 0}, {"wide", 2, true, 0}, {"html", 3, true, 0}, {"tabs", 2, false, 0}, {"tabs2", 3, false, 0}, {"refs", 3, true, 0}}
 	}
-	return []bsConfig{{"tiny", 4, true, 0}, {"small", 3, false, 0}, {"small", 2, true, 0}, {"lists", 3, false, 0}, {"quotes", 2, true, 0}, {"leaves", 2, false, 0}, {"html", 2, true, 0}, {"tabs2", 2, false, 0}}
+	return []bsConfig{{"tiny", 4, true, 0}, {"small", 3, false, 0}, {"small", 2, true, 0}, {"lists", 3, false, 0}, {"quotes", 2, true, 0}, {"leaves", 2, false, 0}, {"html", 2, true, 0}, {"tabs2", 2, false, 0}, {"refs", 2, true, 0}}
 }
 
 func bsSimConfigs(c *Ctx) []bsConfig {
-	return []bsConfig{{"wide", 6, false, c.Pick(16000, 400000)}, {"lists", 8, false, c.Pick(8000, 400000)}, {"small", 7, false, c.Pick(6000, 200000)}, {"html", 6, false, c.Pick(8000, 300000)}, {"tabs", 5, false, c.Pick(12000, 400000)}}
+	return []bsConfig{{"wide", 6, false, c.Pick(16000, 400000)}, {"lists", 8, false, c.Pick(8000, 400000)}, {"small", 7, false, c.Pick(6000, 200000)}, {"html", 6, false, c.Pick(8000, 300000)}, {"tabs", 5, false, c.Pick(12000, 400000)}, {"refs", 6, false, c.Pick(12000, 300000)}}
 }
 
 func bsCfg(alpha string, lines int, sim, laws bool) string {
